@@ -28,17 +28,20 @@ func genC02(g *gen, tier string) *Scenario {
 		sc.Sim.AtomicFiles = []string{"store.go", "entry.go", "timerwheel.go"}
 	}
 	maxCost := sc.Cache.MaxSize
-	p := mixParams{clients: [2]int{2, 4}, ops: [2]int{4, 16}, keys: g.rng(2, 8), setPct: 60, getPct: 15, delPct: 15, sleepPct: 10,
+	p := mixParams{clients: [2]int{2, 4}, ops: [2]int{4, 16}, keys: g.rng(2, 8), singleWriter: g.pct(50), setPct: 60, getPct: 15, delPct: 15, sleepPct: 10,
 		ttlPct: pick(g, 0, 20, 50), ttls: []int64{300 * ms, 1 * sec, 1500 * ms, 3 * sec, 70 * sec}, costMax: maxCost, sleepMax: 2500 * ms}
 	if tier == "thorough" {
 		p.clients = [2]int{2, 5}
 		p.ops = [2]int{4, 30}
 	}
 	sc.Clients = g.mixed(p)
+	if p.singleWriter {
+		sc.Family = "accounting,one-writer-per-key"
+	}
 	sc.Stubs.ListenerSlowPct = pick(g, 0, 0, 10)
 	sc.Stubs.ListenerSlowDur = int64(g.rng(1, 1500)) * ms
 	sc.Epilogue = append([]Op{}, quiesce...)
-	sc.Epilogue = append(sc.Epilogue, Op{Kind: "size"})
+	sc.Epilogue = append(sc.Epilogue, Op{Kind: "size"}, Op{Kind: "snap", Label: "after"})
 	return sc
 }
 
@@ -94,11 +97,33 @@ func quiescentAccounting(prop string, rd *RunData) []Violation {
 			}
 		}
 	}
+	// does some key receive cost changes from two different tasks? (their deltas can be applied out of order)
+	cw := map[int]map[int]bool{}
+	for _, r := range rd.Recs {
+		if r.Op.Kind == "set" && r.Client >= 0 {
+			if cw[r.Op.Key] == nil {
+				cw[r.Op.Key] = map[int]bool{}
+			}
+			cw[r.Op.Key][r.Client] = true
+		}
+	}
+	for _, l := range rd.Loader {
+		if cw[l.Key] == nil {
+			cw[l.Key] = map[int]bool{}
+		}
+		cw[l.Key][1000+l.Task] = true
+	}
+	writers := "one-cost-writer-per-key"
+	for _, m := range cw {
+		if len(m) > 1 {
+			writers = "concurrent-cost-updates"
+		}
+	}
 	for _, e := range residentErrors(sn) {
-		vs = append(vs, Violation{prop + "/" + classify(e) + "/" + hadTTL, "at quiescence after Wait: " + e})
+		vs = append(vs, Violation{prop + "/" + classify(e) + "/" + hadTTL + "," + writers, "at quiescence after Wait: " + e})
 	}
 	for _, e := range accountingErrors(sn, true) {
-		vs = append(vs, Violation{prop + "/policy-accounting/" + hadTTL, "at quiescence after Wait: " + e})
+		vs = append(vs, Violation{prop + "/policy-accounting/" + hadTTL + "," + writers, "at quiescence after Wait: " + e})
 	}
 	return vs
 }
@@ -108,7 +133,8 @@ func checkC02(rd *RunData) []Violation {
 		return nil
 	}
 	vs := quiescentAccounting("C02", rd)
-	if sn := rd.Snaps["final"]; sn != nil {
+	if sn, after := rd.Snaps["final"], rd.Snaps["after"]; sn != nil && after != nil && len(sn.Resident) == len(after.Resident) {
+		// nothing expired between the two snapshots, so EstimatedSize saw the same residents
 		var sum int64
 		for _, e := range sn.Resident {
 			sum += e.Weight
@@ -140,9 +166,12 @@ func genC07(g *gen, tier string) *Scenario {
 		sc.Family = "policy-climber"
 	}
 	keys := int(sc.Cache.MaxSize)*pick(g, 1, 2, 4) + 2
-	p := mixParams{clients: [2]int{1, 3}, ops: [2]int{nops / 2, nops}, keys: keys, setPct: pick(g, 20, 50, 80), getPct: pick(g, 20, 50, 80), delPct: 8, sleepPct: 1,
+	p := mixParams{clients: [2]int{1, 3}, ops: [2]int{nops / 2, nops}, keys: keys, singleWriter: g.pct(50), setPct: pick(g, 20, 50, 80), getPct: pick(g, 20, 50, 80), delPct: 8, sleepPct: 1,
 		ttlPct: pick(g, 0, 0, 10), ttls: []int64{1 * sec, 5 * sec}, costMax: maxCost, sleepMax: 1500 * ms}
 	sc.Clients = g.mixed(p)
+	if p.singleWriter {
+		sc.Family += ",one-writer-per-key"
+	}
 	sc.Sim.MaxSteps = 3000000
 	sc.Epilogue = append([]Op{}, quiesce...)
 	return sc
@@ -218,8 +247,25 @@ func classifyInv(e string) string {
 }
 
 func checkC07(rd *RunData) []Violation {
-	if rd.Res.Verdict == "budget" {
-		return nil
+	// attribute: did two clients change the cost of one key in this run? (their
+	// asynchronous cost deltas can be applied out of order: known finding)
+	cw := map[int]map[int]bool{}
+	for _, r := range rd.Recs {
+		if r.Op.Kind == "set" && r.Client >= 0 {
+			if cw[r.Op.Key] == nil {
+				cw[r.Op.Key] = map[int]bool{}
+			}
+			cw[r.Op.Key][r.Client] = true
+		}
+	}
+	writers := "one-cost-writer-per-key"
+	for _, m := range cw {
+		if len(m) > 1 {
+			writers = "concurrent-cost-updates"
+		}
+	}
+	for i := range rd.Monitor {
+		rd.Monitor[i].Sig += "," + writers
 	}
 	return nil
 }
